@@ -57,6 +57,10 @@ type gen6 struct {
 	seq      int
 	noEsc    bool
 	longCat  bool
+	pfx      string // the module's prefix
+	// the last line still lacks its line break; tight counts the statements written without one
+	pendingNL bool
+	tight     int
 }
 
 var textCatalog = []string{"plain text", "x", "two words", "with 'single' quotes", "semi;colon", "curly{brace}", "slash/and//slashes", "star/*not comment*/", "plus + sign", "tab\there",
@@ -158,8 +162,8 @@ func (g *gen6) pad() string { return strings.Repeat(" ", g.ind) }
 func (g *gen6) ws() string {
 	switch g.r.Intn(13) {
 	case 12:
-		// stars next to the delimiters, a slash inside, several lines
-		return []string{" /** c **/ ", " /***/ ", " /**/ ", " /* c **/ ", " /**** c ****/ ", " /* a / b * c */ ", " /*\n * c\n **/ ", " /* // */ "}[g.r.Intn(8)]
+		// stars next to the delimiters, a slash inside (also right after the opening star, which does not close the comment), several lines
+		return []string{" /** c **/ ", " /***/ ", " /**/ ", " /* c **/ ", " /**** c ****/ ", " /* a / b * c */ ", " /*\n * c\n **/ ", " /* // */ ", " /*/ c */ ", " /*/ leaf zz { type string; } */ "}[g.r.Intn(10)]
 	case 0:
 		return " /* c */ "
 	case 1:
@@ -173,9 +177,18 @@ func (g *gen6) ws() string {
 }
 
 func (g *gen6) line(format string, a ...interface{}) {
-	g.b.WriteString(g.pad())
+	// now and then a statement follows the brace or the semicolon before it without any white space ("module m {prefix m;leaf ...")
+	if g.pendingNL {
+		if g.r.Intn(12) == 0 {
+			g.tight++
+		} else {
+			g.b.WriteString("\n" + g.pad())
+		}
+	} else {
+		g.b.WriteString(g.pad())
+	}
 	fmt.Fprintf(&g.b, format, a...)
-	g.b.WriteString("\n")
+	g.pendingNL = true
 }
 
 // strStmt writes `kw <spelled text>;` and records the expectation.
@@ -211,10 +224,15 @@ func (g *gen6) ext(path string, n *int) {
 	if g.r.Intn(4) == 0 {
 		arg := g.text()
 		sp, sty := g.spellC(arg, false)
-		g.line("m:ext1%s%s;", g.ws(), sp)
+		if g.r.Intn(6) == 0 {
+			// an unquoted argument that starts like a number and is none
+			arg = []string{"2020-01-01", "10.0.0.1/24", "1.2.3-rc", "5-3", "-x"}[g.r.Intn(5)]
+			sp, sty = arg, "unquoted-numberlike"
+		}
+		g.line("%s:ext1%s%s;", g.pfx, g.ws(), sp)
 		g.exp = append(g.exp, exp6{path: fmt.Sprintf("%s.ext.%d.arg", path, *n), want: arg, stmt: "extension-use", sty: sty})
 		g.exp = append(g.exp, exp6{path: fmt.Sprintf("%s.ext.%d.ident", path, *n), want: "ext1", stmt: "extension-use", sty: sty})
-		g.exp = append(g.exp, exp6{path: fmt.Sprintf("%s.ext.%d.prefix", path, *n), want: "m", stmt: "extension-use", sty: sty})
+		g.exp = append(g.exp, exp6{path: fmt.Sprintf("%s.ext.%d.prefix", path, *n), want: g.pfx, stmt: "extension-use", sty: sty})
 		*n++
 	}
 }
@@ -254,7 +272,7 @@ func (g *gen6) common(path string, kind string) {
 		sp, sty := g.spellC(arg, false)
 		dsp, _ := g.spell("d")
 		g.line("description%s%s {", g.ws(), dsp)
-		g.line("  m:ext1%s%s;", g.ws(), sp)
+		g.line("  %s:ext1%s%s;", g.pfx, g.ws(), sp)
 		g.line("}")
 		g.exp = append(g.exp, exp6{path: path + ".description", want: "d", stmt: "description"})
 		g.exp = append(g.exp, exp6{path: path + ".ext.0.arg", want: arg, stmt: "extension-use", sty: sty})
@@ -510,8 +528,10 @@ func (g *gen6) module() {
 		g.exp = append(g.exp, exp6{path: "version", want: v, stmt: "yang-version", sty: sty})
 	}
 	g.strStmt("namespace", "urn:example:m", "namespace")
-	g.line("prefix m;")
-	g.exp = append(g.exp, exp6{path: "prefix", want: "m", stmt: "prefix"})
+	// a prefix may begin like a word of the language (ietf-key-chain has "key-chain")
+	g.pfx = []string{"m", "m", "m", "key-chain", "leaf-x", "type2", "list-of", "min", "config-x"}[g.r.Intn(9)]
+	g.line("prefix %s;", g.pfx)
+	g.exp = append(g.exp, exp6{path: "prefix", want: g.pfx, stmt: "prefix"})
 	if g.r.Intn(2) == 0 {
 		g.strStmt("organization", g.text(), "organization")
 	}
@@ -704,7 +724,7 @@ func (p c06) Run(c *core.Ctx, idx int) {
 	g.noEsc = modID%3 == 0
 	g.longCat = modID%5 == 0
 	g.module()
-	text := g.b.String()
+	text := g.b.String() + "\n"
 	c.SetSample(map[string]interface{}{"module": head(text, 2500), "expectations": len(g.exp)})
 	var m *meta.Module
 	var err error
